@@ -17,8 +17,9 @@ FULL STATEMENTS THAT ARE FALSE ON THE CURRENT CODE (kept visible; see `Model/Mir
 * `∀ items, printModule terminates` — false: the section loop advances from `item`, not `curr_item`:
   `section_printer_diverges_today`; proved for the fixed loop (`section_printer_terminates`) and for today's
   loop under `noAnonFollower` (`section_printer_terminates_partial`, `section_printer_today_iff`).
-* `every opcode MIR_finish_func accepts has a case` — false for LDMOV, SWITCH, UNSPEC: `coverage_fails_today`;
-  `coverage` is the statement outside that list.
+* `every opcode MIR_finish_func accepts has a case` — false for LDMOV and SWITCH: `coverage_fails_today`;
+  `coverage` is the statement outside `expectedMissing` (= those two while listed, plus the permanent,
+  documented exclusion `outsideVocabulary` = UNSPEC, a target-specific instruction without a C meaning).
 * `UBO/UBNO after ADDO/SUBO[S] test the unsigned overflow` — false (they test the signed flag):
   `ubo_after_addo_wrong`; `ubo_after_addo_meets_doc` is the statement for the repaired code.
 * Not a defect of a row but a gap of the approach (#20): without `-fwrapv` the emitted C is *undefined*
@@ -189,7 +190,8 @@ theorem ubo_after_addo_meets_doc (h : Deviation.uboTestsSignedFlag ∉ knownDevi
   exact ⟨builtinU_add_flag x y, builtinU_sub_flag x y⟩
 
 /-- **Coverage.**  Every opcode of `MIR_insn_code_t` that `MIR_finish_func` does not reject and that is
-not in the listed set has a `case` in `out_insn`. -/
+not in `expectedMissing` (the listed deviation LDMOV/SWITCH, and UNSPEC which is outside C20's
+vocabulary) has a `case` in `out_insn`; `gen_uncovered` (bridge) says the uncovered ones are exactly that list. -/
 theorem coverage (c : Nat) (hc : c < Gen.C20.allOpcodes.length) (hr : c ∉ Gen.C20.rejectCodes)
     (hm : Gen.C20.allOpcodes.getD c "?" ∉ expectedMissing) : c ∈ Gen.C20.caseCodes := by
   by_cases hcase : c ∈ Gen.C20.caseCodes
